@@ -15,6 +15,7 @@ import (
 	"cvh/lib"
 
 	"github.com/onflow/cadence"
+	"github.com/onflow/cadence/common"
 )
 
 var (
@@ -23,6 +24,52 @@ var (
 	tier = flag.String("tier", "quick", "quick|thorough")
 	dir  = flag.String("dir", ".", "output directory")
 )
+
+// contracts deployed with identical code at 0x1 and 0x2
+const contractK = `
+access(all) contract K {
+  access(all) struct interface FI { access(all) let id: Int }
+  access(all) struct F: FI { access(all) let id: Int; init(_ id: Int) { self.id = id } }
+  access(all) resource interface GI { access(all) let id: Int }
+  access(all) resource G: GI { access(all) let id: Int; init(_ id: Int) { self.id = id } }
+  access(all) enum En: UInt8 { access(all) case a; access(all) case b }
+  access(all) fun mkG(_ id: Int): @G { return <- create G(id) }
+}`
+
+const contractOuter = `
+access(all) contract Outer {
+  access(all) struct Inner { access(all) let id: Int; init(_ id: Int) { self.id = id } }
+}`
+
+func newHost() *lib.Host {
+	h := lib.NewHost()
+	for _, a := range []byte{1, 2} {
+		addr := common.MustBytesToAddress([]byte{a})
+		for _, c := range [][2]string{{"K", contractK}, {"Outer", contractOuter}} {
+			if o := h.Deploy(addr, c[0], c[1], false); o.Class != "" {
+				panic(fmt.Sprintf("cannot deploy %s at %v: %v", c[0], addr, o.Err))
+			}
+		}
+	}
+	return h
+}
+
+const imports = `
+import K from 0x1
+import K as K2 from 0x2
+import Outer from 0x1
+import Outer as Outer2 from 0x2
+`
+
+var usesContracts = regexp.MustCompile(`\b(K|K2|Outer|Outer2)\.`)
+
+// withImports prepends the contract imports to the programs that mention contract members
+func withImports(src string) string {
+	if usesContracts.MatchString(src) {
+		return imports + src
+	}
+	return src
+}
 
 const decls = `
 access(all) entitlement E0
@@ -98,7 +145,7 @@ func (k *kase) mainScript() string {
 		b.WriteString("  " + p + "\n")
 	}
 	b.WriteString("  return res\n}\n")
-	return b.String()
+	return withImports(b.String())
 }
 
 func (k *kase) forceScript() string {
@@ -124,7 +171,7 @@ func (k *kase) forceScript() string {
 		b.WriteString("  " + p + "\n")
 	}
 	b.WriteString("  return id\n}\n")
-	return b.String()
+	return withImports(b.String())
 }
 
 func optStr(v cadence.Value) string {
@@ -139,7 +186,7 @@ func optStr(v cadence.Value) string {
 		v = o.Value
 	}
 	// the cast re-types references and capabilities to the target's authorization: compare modulo `auth(...)`
-	return authRe.ReplaceAllString(locRe.ReplaceAllString(v.String(), ""), "")
+	return authRe.ReplaceAllString(norm(v.String()), "")
 }
 
 var authRe = regexp.MustCompile(`auth\([^)]*\)`)
@@ -164,8 +211,8 @@ func runCase(h *lib.Host, k *kase, vm bool) (o obs) {
 	}
 	o.Inst = bool(arr.Values[0].(cadence.Bool))
 	o.Sub = bool(arr.Values[1].(cadence.Bool))
-	o.TypeID = locRe.ReplaceAllString(string(arr.Values[2].(cadence.String)), "")
-	cid := locRe.ReplaceAllString(string(arr.Values[3].(cadence.String)), "")
+	o.TypeID = norm(string(arr.Values[2].(cadence.String)))
+	cid := norm(string(arr.Values[3].(cadence.String)))
 	if k.Resource {
 		o.CastID = cid // type of y (already unwrapped once), "" on failure
 	} else {
@@ -180,7 +227,7 @@ func runCase(h *lib.Host, k *kase, vm bool) (o obs) {
 	f := h.RunScript(k.forceScript(), nil, vm)
 	switch {
 	case f.Class == "":
-		o.Force = locRe.ReplaceAllString(string(f.Value.(cadence.String)), "")
+		o.Force = norm(string(f.Value.(cadence.String)))
 	case f.Class == "CheckerError" || f.Class == "ParseError":
 		o.Status = "static"
 	default:
@@ -299,16 +346,27 @@ func (g *gen) related(d *Ty, depth int) []*Ty {
 		for _, s := range subsetsOf(compConf[d.C]) {
 			out = append(out, inter(s...))
 		}
-		if compIsResource(d.C) {
-			out = append(out, comp(3), comp(4), inter(3), inter(4), inter(3, 4))
+		if tw, ok := compTwin[d.C]; ok {
+			// the same-named type of the other location, several times: it must never be confused with d
+			out = append(out, comp(tw), comp(tw), opt(comp(tw)), comp(d.C))
+			for _, s := range subsetsOf(compConf[tw]) {
+				out = append(out, inter(s...), inter(append(append([]int{}, s...), compConf[d.C]...)...))
+			}
+		} else if compIsResource(d.C) {
+			out = append(out, comp(3), comp(4), inter(3), inter(4), inter(3, 4), comp(7), inter(7))
 		} else {
-			out = append(out, comp(0), comp(1), comp(2), inter(0), inter(1), inter(2), inter(0, 2), inter(1, 2))
+			out = append(out, comp(0), comp(1), comp(2), inter(0), inter(1), inter(2), inter(0, 2), inter(1, 2), comp(5), inter(5), comp(11))
 		}
 	case "inter":
-		if d.isResource() {
-			out = append(out, comp(3), comp(4), inter(3), inter(4))
-		} else {
-			out = append(out, comp(0), comp(1), comp(2), inter(0), inter(1), inter(2), inter(0, 1, 2))
+		switch {
+		case len(d.Is) == 1 && d.Is[0] >= 5:
+			i := d.Is[0]
+			tw := i ^ 3 // 5<->6, 7<->8
+			out = append(out, comp(i), comp(tw), inter(tw), inter(i, tw))
+		case d.isResource():
+			out = append(out, comp(3), comp(4), inter(3), inter(4), comp(7))
+		default:
+			out = append(out, comp(0), comp(1), comp(2), inter(0), inter(1), inter(2), inter(0, 1, 2), comp(5))
 		}
 	case "ref":
 		inner := g.related(d.A, depth-1)
@@ -414,9 +472,9 @@ func (g *gen) randomType(depth int, resource bool) *Ty {
 		case 0:
 			return prim("AnyResource")
 		case 1:
-			return comp(3 + r.Intn(2))
+			return comp(lib.Pick(r, resourceComps))
 		case 2:
-			return inter(lib.Pick(r, [][]int{{3}, {4}, {3, 4}})...)
+			return inter(lib.Pick(r, [][]int{{3}, {4}, {3, 4}, {7}, {8}})...)
 		case 3:
 			if depth > 0 {
 				return opt(g.randomType(depth-1, true))
@@ -430,7 +488,7 @@ func (g *gen) randomType(depth int, resource bool) *Ty {
 				return dict(prim(lib.Pick(r, []string{"String", "Int"})), g.randomType(depth-1, true))
 			}
 		}
-		return comp(3 + r.Intn(2))
+		return comp(lib.Pick(r, resourceComps))
 	}
 	if depth > 0 && r.Chance(1, 2) {
 		return g.valueType(depth)
